@@ -713,6 +713,14 @@ impl ExecutionState {
                 return true;
             }
 
+            // The execution is over and its unfinished tasks are being unwound. Their drop handlers
+            // may still reach a scheduling point (e.g. a `MutexGuard` releasing its lock), but there
+            // is nothing left to schedule: asking the scheduler again, or looking up the (no longer
+            // existing) current task, would panic inside a destructor and abort the process.
+            if state.in_cleanup {
+                return false;
+            }
+
             debug_assert!(
                 matches!(state.current_task, ScheduledTask::Some(_) | ScheduledTask::Finished)
                     && state.next_task == ScheduledTask::None,
